@@ -140,6 +140,20 @@ func singleStore(a *ssa.Alloc) ssa.Value {
 			}
 		case *ssa.IndexAddr:
 			return nil
+		case *ssa.MakeClosure:
+			// captured by a closure: fine when the closure only reads the cell
+			fn, ok := r.Fn.(*ssa.Function)
+			if !ok {
+				return nil
+			}
+			for i, bnd := range r.Bindings {
+				if bnd != ssa.Value(a) || i >= len(fn.FreeVars) {
+					continue
+				}
+				if !freeVarReadOnly(fn.FreeVars[i], 0) {
+					return nil
+				}
+			}
 		default:
 			return nil
 		}
@@ -148,6 +162,35 @@ func singleStore(a *ssa.Alloc) ssa.Value {
 		return val
 	}
 	return nil
+}
+
+// freeVarReadOnly: the captured cell is only loaded (possibly handed on to
+// nested closures that only load it).
+func freeVarReadOnly(fv *ssa.FreeVar, depth int) bool {
+	if fv.Referrers() == nil {
+		return true
+	}
+	if depth > 3 {
+		return false
+	}
+	for _, r := range *fv.Referrers() {
+		switch r := r.(type) {
+		case *ssa.UnOp, *ssa.DebugRef:
+		case *ssa.MakeClosure:
+			fn, ok := r.Fn.(*ssa.Function)
+			if !ok {
+				return false
+			}
+			for i, bnd := range r.Bindings {
+				if bnd == ssa.Value(fv) && i < len(fn.FreeVars) && !freeVarReadOnly(fn.FreeVars[i], depth+1) {
+					return false
+				}
+			}
+		default:
+			return false
+		}
+	}
+	return true
 }
 
 func fieldName(t types.Type, i int) string {
@@ -294,6 +337,20 @@ func Leaves(v ssa.Value, opts SliceOpts) []ssa.Value {
 			visit(x.X, depth)
 		case *ssa.Alloc:
 			stores := storesTo(x)
+			if pt, ok := x.Type().Underlying().(*types.Pointer); ok && x.Referrers() != nil {
+				if _, isArr := pt.Elem().Underlying().(*types.Array); isArr {
+					// an array literal backing a slice: its elements
+					for _, rr := range *x.Referrers() {
+						if ia, ok := rr.(*ssa.IndexAddr); ok && ia.Referrers() != nil {
+							for _, r3 := range *ia.Referrers() {
+								if st, ok := r3.(*ssa.Store); ok && st.Addr == ssa.Value(ia) {
+									stores = append(stores, st.Val)
+								}
+							}
+						}
+					}
+				}
+			}
 			if len(stores) == 0 {
 				addLeaf(v)
 				return
